@@ -281,7 +281,7 @@ class Inliner:
                 return meths[fx.attr]
         return None
 
-    def expand(self, call, helper, bound, generator=None, tail=False, cont=None):
+    def expand(self, call, helper, bound, generator=None, tail=False, cont=None, owner=None):
         """-> (statements, result expression | None)"""
         self.counter += 1
         tag = f"{helper.name}_{self.counter}"
@@ -317,6 +317,41 @@ class Inliner:
         if body and isinstance(body[0], ast.Expr) and isinstance(body[0].value, ast.Constant) and isinstance(body[0].value.value, str):
             body = body[1:]
         stored = {n.id for st in body for n in ast.walk(st) if isinstance(n, ast.Name) and isinstance(n.ctx, ast.Store)}
+        # a local of the helper that the caller also uses as a name of its own gets a name of its own (alpha-renaming): the caller's
+        # variable is not the helper's
+        if owner is not None:
+            theirs = {n.id for n in ast.walk(owner) if isinstance(n, ast.Name)} | {a_.arg for a_ in ast.walk(owner) if isinstance(a_, ast.arg)}
+            # names that reach the helper as arguments are the caller's on purpose
+            clash = {v for v in stored if v in theirs and v not in params}
+            # ... needed only where the caller's value of that name is still wanted after the call: bound before the call and read
+            # after it, or the call sits in a loop of the caller that reads the name
+            line = getattr(call, "lineno", 0)
+            loops_ = [l_ for l_ in ast.walk(owner) if isinstance(l_, (ast.For, ast.While)) and any(c_ is call for c_ in ast.walk(l_))]
+
+            def live_across(v):
+                before = any(isinstance(n, ast.Name) and n.id == v and isinstance(n.ctx, ast.Store) and getattr(n, "lineno", 0) < line for n in ast.walk(owner)) \
+                    or any(a_.arg == v for a_ in ast.walk(owner) if isinstance(a_, ast.arg))
+                after = any(isinstance(n, ast.Name) and n.id == v and isinstance(n.ctx, ast.Load) and getattr(n, "lineno", 0) > line for n in ast.walk(owner))
+                in_loop = any(isinstance(n, ast.Name) and n.id == v and isinstance(n.ctx, ast.Load) and not any(n is c_ for c_ in ast.walk(call))
+                              for l_ in loops_ for n in ast.walk(l_))
+                return (before and after) or in_loop
+            clash = {v for v in clash if live_across(v)}
+            if clash and not tail:
+                ren = {v: f"{v}__{helper.name.lstrip('_')}" for v in clash}
+
+                class _Ren(ast.NodeTransformer):
+                    def visit_Name(self, n):
+                        if n.id in ren:
+                            n.id = ren[n.id]
+                        return n
+
+                    def visit_FunctionDef(self, n):
+                        return n
+
+                    def visit_Lambda(self, n):
+                        return n
+                body = [_Ren().visit(st) for st in body]
+                stored = {ren.get(v, v) for v in stored}
         pre, env = [], {}
         for p in params:
             v = args[p]
@@ -431,12 +466,49 @@ class Inliner:
                 if r_ is not None and r_[0] is not owner and _is_generator(r_[0]) \
                         and not any(isinstance(x, (ast.Break, ast.Continue)) for b_ in st.body for x in ast.walk(b_)) \
                         and self.sites.get(id(r_[0]), 0) < MAX_SITES:
-                    ex = self.expand(st.iter, r_[0], r_[1], generator=(st.target.id, st.body))
+                    ex = self.expand(st.iter, r_[0], r_[1], generator=(st.target.id, st.body), owner=owner)
                     if ex is not None:
                         self.sites[id(r_[0])] = self.sites.get(id(r_[0]), 0) + 1
                         stmts[i:i + 1] = ex[0] or [ast.Pass(lineno=st.lineno, col_offset=0)]
                         changed = True
                         continue
+            # `return [not] any/all(<E with a helper call> for x in S [if C])`: the search loop it abbreviates, so that the helper can be
+            # folded into the loop body
+            if isinstance(st, ast.Return) and st.value is not None:
+                v_, neg_ = st.value, False
+                if isinstance(v_, ast.UnaryOp) and isinstance(v_.op, ast.Not):
+                    v_, neg_ = v_.operand, True
+                if isinstance(v_, ast.Call) and isinstance(v_.func, ast.Name) and v_.func.id in ("any", "all") and len(v_.args) == 1 \
+                        and not v_.keywords and isinstance(v_.args[0], (ast.GeneratorExp, ast.ListComp)) and len(v_.args[0].generators) == 1 \
+                        and not v_.args[0].generators[0].is_async \
+                        and any(isinstance(c_, ast.Call) and self.resolve(c_, cname) is not None and self.resolve(c_, cname)[0] is not owner
+                                for c_ in ast.walk(v_.args[0])):
+                    g_ = v_.args[0].generators[0]
+                    is_any = v_.func.id == "any"
+                    test_ = v_.args[0].elt if is_any else ast.UnaryOp(op=ast.Not(), operand=v_.args[0].elt)
+                    hit_val = (is_any != neg_)           # any: True on a hit (False under `not`); all: False on a counter-example
+                    hit = ast.If(test=test_, body=[ast.Return(value=ast.Constant(value=hit_val), lineno=st.lineno, col_offset=0)], orelse=[],
+                                 lineno=st.lineno, col_offset=0)
+                    body_ = [hit]
+                    if g_.ifs:
+                        cond_ = g_.ifs[0] if len(g_.ifs) == 1 else ast.BoolOp(op=ast.And(), values=list(g_.ifs))
+                        body_ = [ast.If(test=cond_, body=[hit], orelse=[], lineno=st.lineno, col_offset=0)]
+                    loop_ = ast.For(target=g_.target, iter=g_.iter, body=body_, orelse=[], lineno=st.lineno, col_offset=st.col_offset)
+                    for x_ in ast.walk(loop_.target):
+                        if isinstance(x_, ast.Name):
+                            x_.ctx = ast.Store()
+                    tail_ = ast.Return(value=ast.Constant(value=not hit_val), lineno=st.lineno, col_offset=st.col_offset)
+                    stmts[i:i + 1] = [loop_, tail_]
+                    ast.fix_missing_locations(loop_)
+                    changed = True
+                    continue
+            # `if bool(X):` is `if X:`
+            if isinstance(st, (ast.If, ast.While)) and isinstance(st.test, ast.Call) and isinstance(st.test.func, ast.Name) \
+                    and st.test.func.id == "bool" and len(st.test.args) == 1 and not st.test.keywords and getattr(st, "_debooled", None) is None:
+                st.test = st.test.args[0]
+                st._debooled = True
+                changed = True
+                continue
             # `if A or <helper call> [or ..]: ...; return/raise` (no else): one test after the other, each with the same leaving body
             if isinstance(st, ast.If) and not st.orelse and st.body and isinstance(st.body[-1], (ast.Return, ast.Raise)) \
                     and isinstance(st.test, ast.BoolOp) and isinstance(st.test.op, ast.Or):
@@ -457,7 +529,7 @@ class Inliner:
                 r_ = self.resolve(c_, cname) if isinstance(c_, ast.Call) else None
                 if r_ is not None and r_[0] is not owner and not _is_generator(r_[0]) and self.sites.get(id(r_[0]), 0) < MAX_SITES \
                         and not any(isinstance(x, (ast.Break, ast.Continue)) for b_ in st.body for x in ast.walk(b_)):
-                    ex = self.expand(c_, r_[0], r_[1], cont=(st.body, neg_))
+                    ex = self.expand(c_, r_[0], r_[1], cont=(st.body, neg_), owner=owner)
                     if ex is not None:
                         self.sites[id(r_[0])] = self.sites.get(id(r_[0]), 0) + 1
                         for n in ex[0]:
@@ -477,7 +549,7 @@ class Inliner:
                 if self.sites.get(key, 0) >= MAX_SITES:
                     continue
                 is_tail = isinstance(st, ast.Return) and st.value is call
-                ex = self.expand(call, helper, bound, tail=is_tail)
+                ex = self.expand(call, helper, bound, tail=is_tail, owner=owner)
                 if ex is None:
                     continue
                 new_stmts, result = ex
